@@ -19,8 +19,9 @@ Definition with_indexes (st : state) (ixs : list index) : state :=
   let sch := st_sch st in
   mkst (mksch (s_id sch) (s_fields sch) ixs (s_next sch) (s_nz sch)) (st_docs st).
 
-(* every converted constant can be a key bound (not a negative zero when the key encoder keeps the
-   sign of zero, no string longer than the column), and no row holds a negative zero in that case *)
+(* while the key encoder keeps the sign of zero: no converted constant and no column value of a live
+   row is a negative zero (an over-long string constant is no obstacle: its range bound is cut to the
+   column length) *)
 Definition consts_ok (st : state) (q : query) : Prop :=
   forall gs, conv_groups (st_sch st) (q_groups q) = Ok gs -> consts_kc (s_nz (st_sch st)) gs.
 Definition rows_kc (st : state) : Prop :=
@@ -66,18 +67,6 @@ Proof.
     + apply cmp_le_true; exact B.
 Qed.
 
-Lemma bounds_not_too_long nz gs cols :
-  consts_kc nz gs ->
-  existsb cv_too_long (fst (key_bounds cols (where_ranges gs) false false) ++
-                       snd (key_bounds cols (where_ranges gs) false false)) = false.
-Proof.
-  intros K. destruct (existsb cv_too_long _) eqn:E; auto.
-  apply existsb_exists in E as [v [Hin Hv]].
-  apply (key_bounds_vals nz (fun _ => CNull) (where_ranges gs) cols false false v
-           (where_ranges_kc nz (fun _ => CNull) gs K)) in Hin.
-  destruct Hin as [_ Hs]. congruence.
-Qed.
-
 Theorem engine_is_plain st q : nz_safe st q -> engine_matched st q = plain_matched st q.
 Proof.
   intros [Hr Hc]. unfold engine_matched, plain_matched.
@@ -86,8 +75,7 @@ Proof.
   specialize (Hc gs CG).
   set (rm := where_ranges gs).
   set (cols := choose_index (st_sch st) (q_order q) rm).
-  pose proof (bounds_not_too_long (s_nz (st_sch st)) gs cols Hc) as TL. fold rm in TL.
-  destruct (key_bounds cols rm false false) as [lo hi] eqn:KB. simpl in TL. rewrite TL.
+  destruct (key_bounds cols rm false false) as [lo hi] eqn:KB.
   f_equal. f_equal.
   apply filter_filter_absorb. intros r Hin Hw.
   assert (E : lo = fst (key_bounds cols rm false false)) by (rewrite KB; reflexivity).
@@ -112,19 +100,14 @@ Proof.
   rewrite !plain_indexes. reflexivity.
 Qed.
 
-(* ... and, once the key encoder normalises the sign of zero, for every query whose string
-   constants fit the column *)
-Definition consts_short (st : state) (q : query) : Prop :=
-  forall gs, conv_groups (st_sch st) (q_groups q) = Ok gs ->
-    forall g, In g gs -> forall c, In c g -> cv_too_long (cc_val c) = false.
-
+(* ... and unconditionally once the key encoder normalises the sign of zero *)
 Theorem index_independent_when_keys_normalised st ixs1 ixs2 q off :
-  s_nz (st_sch st) = false -> consts_short st q ->
+  s_nz (st_sch st) = false ->
   engine_search (with_indexes st ixs1) q off = engine_search (with_indexes st ixs2) q off.
 Proof.
-  intros H S. apply index_independent_partial. split.
+  intros H. apply index_independent_partial. split.
   - intros r name _. left; exact H.
-  - intros gs Hgs g Hg c Hc. split; [left; exact H|eapply S; eauto].
+  - intros gs Hgs g Hg c Hc. left; exact H.
 Qed.
 
 (* ---------- relation to the payloads ---------- *)
